@@ -73,6 +73,13 @@ def generate(rng, tier):
                       "dst": [rng.randrange(0, 4) for _ in range(m)]})
         L = [rng.randint(1, 9) for _ in range(rng.randint(1, 7))]
         cases.append({"kind": "batches", "lens": L, "bs": rng.randint(max(L) + 1, max(L) + 12)})
+    # lengths handed over as narrow-integer arrays whose running sum leaves the dtype's range
+    for _ in range(6 if tier == "quick" else 40):
+        dt = rng.choice(["uint8", "int8", "uint8", "int16"])
+        lim = {"uint8": 255, "int8": 127, "int16": 300}[dt]
+        lens = [rng.randint(lim // 2, lim - 1) for _ in range(rng.randint(2, 3))]
+        n = sum(lens)
+        cases.append({"kind": "plist", "n": n, "lens": lens, "lens_dtype": dt, "vals": [rng.randrange(100) for _ in range(n)]})
     nb = 4 if tier == "quick" else 30
     for _ in range(nb):
         L = [rng.randint(1, 6) for _ in range(rng.randint(2, 6))]
@@ -155,7 +162,8 @@ def run_impl(c):
                     "dst": [[int(v) for v in row] for row in p.distances],
                     "ctr": [[int(t), int(f)] for t, f in p.center_indices]}
         if kind == "plist":
-            rows = ra.partition_list(np.array(c["vals"]), c["lens"])
+            lens_arg = np.array(c["lens"], dtype=c["lens_dtype"]) if "lens_dtype" in c else c["lens"]
+            rows = ra.partition_list(np.array(c["vals"]), lens_arg)
             return {"rows": [[int(v) for v in r] for r in rows]}
         if kind == "fcc":
             return {"fcc": [int(v) for v in util.find_cluster_centers(np.array(c["asg"]), np.array(c["dst"], dtype=float))]}
@@ -302,10 +310,12 @@ def tags(c, r):
         t.append("more-centres-than-frames")
     if c["kind"] == "batches" and len(r.get("batches", [])) > 1:
         t.append("several-batches")
+    if c["kind"] == "plist" and "lens_dtype" in c:
+        t.append("narrow-dtype-lengths")
     if c["kind"] == "fcc" and len(set(c["asg"])) < max(c["asg"]) + 1:
         t.append("label-gap")
     return t
 
 
-ESSENTIAL_TAGS = ["assign", "predict", "partition", "plist", "fcc", "batches", "batch_reassign", "square", "ragged",
+ESSENTIAL_TAGS = ["narrow-dtype-lengths", "assign", "predict", "partition", "plist", "fcc", "batches", "batch_reassign", "square", "ragged",
                   "length-1-trajectory", "more-centres-than-frames", "several-batches", "label-gap"]
